@@ -302,7 +302,7 @@ def execute_model(sc) -> Result:
     try:
         run = driver.run_scenario(sc, d)
         account_run(res, run, sc)
-        res.history_key = "model|" + abstract_history(run)
+        res.history_key = "model|" + abstract_history(run, sc)
         v, foreign = crash_violation(ID, run, ANCHORS)
         if v is not None:
             res.add(v)
